@@ -162,7 +162,9 @@ type World struct {
 	faultsDone        []string
 	scrapeFrom        map[string]map[string]int // addr -> pod name -> scrape attempts completed through that pod's proxy
 	assignedOversized map[string]bool
-	markAt            map[string]int // pod/addr -> attempts of that pod when the copy was marked in_transfer
+	toldPod           map[string]*Pod   // pod/addr -> the pod object (incarnation) that accepted that update
+	lastTold          map[string]string // pod/addr -> state in the last update delivered to that pod
+	markAt            map[string]int    // pod/addr -> attempts of that pod when the copy was marked in_transfer
 	held              []*heldScrape
 }
 
@@ -216,7 +218,7 @@ func (w *World) applyTargetSpec(t *WTarget) {
 func New(tp *core.Tape, e *core.Env, sc *WScenario) (*World, error) {
 	w := &World{E: e, TP: tp, SC: sc, start: time.Now(), hashOf: map[string]uint64{}, addrOf: map[uint64]string{},
 		sdSent: map[string]time.Time{}, probeOK: map[string]time.Time{}, loseNextPost: map[string]string{}, failGetUntil: map[string]time.Time{},
-		scrapeFrom: map[string]map[string]int{}, assignedOversized: map[string]bool{}, markAt: map[string]int{}}
+		scrapeFrom: map[string]map[string]int{}, assignedOversized: map[string]bool{}, markAt: map[string]int{}, lastTold: map[string]string{}, toldPod: map[string]*Pod{}}
 	lg := cycle.Quiet()
 	w.Net = simnet.New()
 	w.TG = sidecarsim.NewTargets()
